@@ -137,10 +137,14 @@ class _Shards:
         self.crashes = []
 
     def run(self, make_args, K, timeout=3000):
+        import time
+        t0 = time.time()
+
         def one(r):
             return run_cmd([self.binary] + make_args(r, K), timeout=timeout, env=ASAN_ENV)
         with concurrent.futures.ThreadPoolExecutor(max_workers=K) as ex:
             results = list(ex.map(one, range(K)))
+        log("[C09] %s: %d shard(s) in %.1fs" % (self.label, K, time.time() - t0))
         for r, (rc, out, err) in enumerate(results):
             fw = [l for l in out.splitlines() if l.startswith("FRAMEWORK ")]
             if fw or rc == 3:
@@ -173,3 +177,286 @@ class _Shards:
                                 json.dumps({"graph": replay_src, "first": fs[0], "count_in_first_5_per_shard": len(fs)}, indent=1))
             ck.violation(key, "%s: %s (%d failing scenario(s) shown, %d in total across shards)"
                          % (self.label, fs[0].get("why"), len(fs), self.summary["failures"]), rp)
+
+
+GRAPHS = {
+    # name: (MaxV, MaxE, MaxMarks, AllowTag, SelfLoops)
+    "quick": {"edges": (3, 2, 2, False, False), "marks": (4, 0, 3, False, False), "tags-loops": (2, 2, 1, True, True)},
+    "thorough": {"edges": (3, 3, 3, False, False), "marks": (4, 1, 4, False, False), "tags-loops": (3, 2, 1, True, True)},
+}
+GRAPH_MC = {
+    "quick": {"mc-4x1": (4, 1, 2, False, True), "mc-3x2t": (3, 2, 2, True, True)},
+    "thorough": {"mc-4x2": (4, 2, 2, False, True), "mc-3x3t": (3, 3, 3, True, True)},
+}
+PD_SHAPES = ["RV2", "RV2b1_2", "SE2[RV2:2,SO2:1]", "C[RV2:2,D0_2:4,SO3:6]", "C[RV2:2,D0_2:4]", "C[RV2:7,D0_2:7]",
+             "W[SE2[RV2:2,SO2:1]]"]
+TRACE_SHAPE = "C[RV2:2,D0_2:4,SO3:6]"
+
+
+def _graph_cfg2(name, spec, dump, sorted_=True):
+    maxv, maxe, marks, tag, loops = spec
+    p = _graph_cfg(name, maxv, maxe, marks, tag, dump, sorted_)
+    s = open(p).read().replace("SelfLoops = TRUE", "SelfLoops = %s" % ("TRUE" if loops else "FALSE"))
+    open(p, "w").write(s)
+    return p
+
+
+class _RenumberCount:
+    """Vacuity of the removal clause, measured on the dumped transitions themselves."""
+
+    def __init__(self):
+        self.c = {"remove_with_start_above": 0, "remove_with_goal_above": 0, "remove_with_edge_above": 0,
+                  "remove_of_marked_vertex": 0, "remove_with_incident_edge": 0}
+
+    def see(self, row):
+        if row.get("act") != "RemoveVertex":
+            return
+        g = row["src"][0]
+        v = row["args"]["v"] + 1
+        if any(k > v for k in g["starts"]):
+            self.c["remove_with_start_above"] += 1
+        if any(k > v for k in g["goals"]):
+            self.c["remove_with_goal_above"] += 1
+        if any((e["i"] > v or e["j"] > v) and e["i"] != v and e["j"] != v for e in g["edges"]):
+            self.c["remove_with_edge_above"] += 1
+        if v in g["starts"] or v in g["goals"]:
+            self.c["remove_of_marked_vertex"] += 1
+        if any(e["i"] == v or e["j"] == v for e in g["edges"]):
+            self.c["remove_with_incident_edge"] += 1
+
+
+def _tlc_jobs(tier):
+    """All TLC runs of the tier, started 0.8 s apart so that they overlap."""
+    import time
+    jobs = {}
+    ex = concurrent.futures.ThreadPoolExecutor(max_workers=16)
+
+    def submit(name, *a, **kw):
+        jobs[name] = ex.submit(run_tlc, *a, **kw)
+        time.sleep(0.8)
+
+    files = {}
+
+    def sink_to(path):
+        f = open(path, "w")
+        files[path] = f
+        return lambda o: f.write(json.dumps(o, separators=(",", ":")) + "\n")
+
+    shapes = os.path.join(WORK, "c09-shapes-%s.ndjson" % tier)
+    pairs = os.path.join(WORK, "c09-pairs-%s.ndjson" % tier)
+    table = os.path.join(WORK, "c09-table-%s.ndjson" % tier)
+    submit("pairs", "base/StateLayout", cfg=_layout_cfg("pairs-" + tier, tier, True), workers=1, timeout=2400,
+           json_sink=sink_to(pairs))
+    submit("shapes", "base/StateLayout", cfg=_layout_cfg("shapes-" + tier, tier, False), workers=1, timeout=2400,
+           json_sink=sink_to(shapes))
+    graphs = {}
+    ren = _RenumberCount()
+    for name, spec in GRAPHS[tier].items():
+        rows = []
+        graphs[name] = rows
+
+        def sink(o, rows=rows):
+            ren.see(o)
+            rows.append(o)
+        submit("dump-" + name, "base/PlannerDataGraph", cfg=_graph_cfg2("g-dump-%s-%s" % (name, tier), spec, True),
+               workers=1, timeout=2400, json_sink=sink, heap="12g")
+    for name, spec in GRAPH_MC[tier].items():
+        submit(name, "base/PlannerDataGraph", cfg=_graph_cfg2("g-%s" % name, spec, False), workers=max(2, vlib.NCPU // 2),
+               timeout=2400)
+    items = 2 if tier == "quick" else 3
+    submit("storage-table", "base/Storage", cfg=_storage_cfg("st-dump-" + tier, items, False, True, True), workers=1,
+           timeout=900, json_sink=sink_to(table))
+    submit("storage-contract", "base/Storage", cfg=_storage_cfg("st-contract-" + tier, items, False, True, False),
+           workers=2, timeout=900)
+    # the implementation's design choices, shown to break the contract by TLC itself (informative)
+    submit("storage-one-type-per-vertex", "base/Storage", cfg=_storage_cfg("st-d8", 2, True, True, False), workers=1, timeout=600)
+    submit("storage-marker-checked-last", "base/Storage", cfg=_storage_cfg("st-foreign", 2, False, False, False), workers=1,
+           timeout=600)
+    submit("graph-goal-list-unsorted", "base/PlannerDataGraph",
+           cfg=_graph_cfg2("g-d3", (3, 1, 2, False, False), False, sorted_=False), workers=1, timeout=600)
+    res = {k: f.result() for k, f in jobs.items()}
+    ex.shutdown()
+    log("[C09] TLC: " + ", ".join("%s %.0fs" % (k, r.wall) for k, r in res.items()))
+    for f in files.values():
+        f.close()
+    return res, dict(shapes=shapes, pairs=pairs, table=table), graphs, ren
+
+
+def run(tier):
+    ck = Check(PID, tier, "model_checking")
+    ck.assumptions += [
+        "same space = same signature (type and dimension tree); bounds and weights are not part of the archive check",
+        "state spaces are identified by their names; names are unique within a space and equal names mean equal subtrees",
+        "WrapperStateSpace is used at the root only (it hides getName/getType non-virtually)",
+        "a discrete component is not part of the vector of reals, so the reals round trip restores the doubles only",
+        "leaf encodings are memcpy and are observed, not modelled; Boost's archive preamble is one opaque field",
+        "leaks on the error paths of load() are outside the property (leak detection off)",
+    ]
+    binary = build_harness("storage", needs_lib=True, san=None)
+    res, files, graphs, ren = _tlc_jobs(tier)
+
+    # ---- model checking results
+    informative = {"storage-one-type-per-vertex": "RoundTrip", "storage-marker-checked-last": "FaultsRejected",
+                   "graph-goal-list-unsorted": "StartGoalFlagsExact"}
+    for name, r in res.items():
+        ck.tlc(r, name)
+        if name in informative:
+            # these configurations transcribe a design choice of the implementation; TLC must show the
+            # contract clause it breaks (the verdict on the code comes from the replay)
+            if r.violated != informative[name]:
+                raise FrameworkError("%s: expected TLC to show %s violated, got %s" % (name, informative[name], r.violated))
+            ck.set("model_shows_" + name.replace("-", "_"), "violates " + r.violated)
+        elif r.violated:
+            rp = ck.replay_file("tlc-%s.txt" % name, r.out[-6000:])
+            ck.violation("model:" + name + ":" + r.violated, "TLC: %s violated in %s" % (r.violated, name), rp)
+    nshapes = sum(1 for _ in open(files["shapes"]))
+    npairs = sum(1 for _ in open(files["pairs"]))
+    ck.set("shapes_enumerated", nshapes)
+    ck.set("pairs_enumerated", npairs)
+    table_keys = set()
+    for row in vlib.read_ndjson(files["table"]):
+        table_keys.add("%s|%s|%s|%s|%s" % (row["kind"], row["fault"], row["field"], "mid" if row["partial"] else "start",
+                                          "same" if row["samesig"] else "diff"))
+    if nshapes < 100 or npairs < 500 or len(table_keys) < 40:
+        raise FrameworkError("enumeration too small: %d shapes, %d pairs, %d fault scenarios" % (nshapes, npairs, len(table_keys)))
+    ids = set(json.loads(l)["id"] for l in open(files["shapes"]))
+    missing = [s for s in PD_SHAPES + [TRACE_SHAPE] if s not in ids]
+    if missing:
+        raise FrameworkError("planner-data shapes not in the enumeration: %s" % missing)
+
+    K = vlib.NCPU
+    counters, hits = {}, {}
+    # ---- layout, partial copies, StateStorage
+    sh = _Shards(ck, binary, "layout")
+    sh.run(lambda r, k: ["layout", files["shapes"], files["pairs"], files["table"], str(r), str(k),
+                         "1" if tier == "thorough" or nshapes <= 2500 else "0"], K)
+    sh.report()
+    ck.add("traces_validated_against_impl", sh.summary["scenarios"] - sh.summary["failures"])
+    _merge(counters, sh.counters)
+    _merge(hits, sh.table_hits)
+    ck.sample({"kind": "layout replay", "shapes": sh.counters.get("shapes_replayed", 0),
+               "pairs": sh.counters.get("pairs_copied", 0), "state_storage_truncations": sh.counters.get("ss_truncations", 0)})
+    # ---- planner data graphs
+    for name, rows in graphs.items():
+        g = Graph(rows)
+        g.check_connected()
+        gpath = g.write(os.path.join(WORK, "c09-graph-%s-%s.ndjson" % (name, tier)))
+        acts = {}
+        for e in g.edges:
+            acts[e["a"]] = acts.get(e["a"], 0) + 1
+        ck.set("edges_per_action_" + name, acts)
+        mode = "pairs" if (tier == "thorough" or name != "edges") else "edges"
+        walks = 40 if tier == "quick" else 400
+        sp = _Shards(ck, binary, "pdata-" + name)
+        sp.run(lambda r, k: ["pdata", gpath, files["shapes"], files["table"], str(r), str(k), mode, str(walks)] + PD_SHAPES, K)
+        sp.report(replay_src=gpath)
+        ck.add("traces_validated_against_impl", sp.summary["scenarios"] - sp.summary["failures"])
+        ck.add("replayed_steps", sp.summary["steps"])
+        _merge(counters, sp.counters)
+        _merge(hits, sp.table_hits)
+        ck.sample({"kind": "planner-data graph replayed", "config": name, "states": len(g.ids), "edges": len(g.edges),
+                   "archives": sp.counters.get("archives_base", 0) + sp.counters.get("archives_control", 0),
+                   "truncations": sp.counters.get("pd_truncations", 0)})
+    # ---- archives of another kind
+    sx = _Shards(ck, binary, "xkind")
+    sx.run(lambda r, k: ["xkind", files["shapes"], files["table"], "RV2"], 1)
+    for f in sx.fails:
+        f["why"] = f.get("why", "")
+    by = {}
+    for f in sx.fails:
+        by.setdefault(KEY_XKIND if f["why"].startswith("xkind-crash") else "replay:" + f["why"].split(":")[0], []).append(f)
+    for key, fs in sorted(by.items()):
+        rp = ck.replay_file("fail-xkind-%s.json" % vlib.digest(key), json.dumps({"first": fs[0], "all": fs}, indent=1))
+        ck.violation(key, "foreign archive: %s (%d of 6 archive/loader combinations)" % (fs[0]["why"], len(fs)), rp)
+    for r_, rc, text in sx.crashes:
+        rp = ck.replay_file("crash-xkind.txt", text)
+        ck.violation("crash:xkind", "harness crashed in the foreign-archive scenarios: " + text[-500:], rp)
+    ck.add("traces_validated_against_impl", sx.summary["scenarios"] - sx.summary["failures"])
+    _merge(counters, sx.counters)
+    _merge(hits, sx.table_hits)
+
+    # ---- recorded random histories over larger graphs, validated by TLC
+    execs, ops = (24, 120) if tier == "quick" else (120, 200)
+    for i in range(1 if tier == "quick" else 3):
+        tpath = os.path.join(WORK, "c09-trace-%s-%d.ndjson" % (tier, i))
+        rc, out, err = run_cmd([binary, "record", tpath, files["shapes"], TRACE_SHAPE, str(execs), str(ops)], timeout=900,
+                               env={"VERIF_SEED": str(vlib.seed() * 31 + i)})
+        if rc != 0:
+            rp = ck.replay_file("trace-%d.ndjson" % i)
+            if os.path.exists(tpath):
+                shutil.copyfile(tpath, rp)
+            ck.violation("record-crash", "planner data crashed under a random history: " + (out + err)[-600:], rp)
+            continue
+        acc, prefix, r = validate_trace("base/PlannerDataGraphTrace", tpath, timeout=1800)
+        evs = vlib.read_ndjson(tpath)
+        ck.add("trace_events", len(evs))
+        if not acc:
+            bad = evs[prefix] if prefix < len(evs) else {}
+            rp = ck.replay_file("trace-%d.ndjson" % i)
+            shutil.copyfile(tpath, rp)
+            if prefix == len(evs) - 1 and bad.get("e") == "RoundTrip" and bad.get("both") == 1 and bad.get("ret") == 1 \
+                    and not bad["obs"]["goals"] and bad["obs"]["starts"]:
+                # everything before the deliberately last line was accepted
+                ck.violation(KEY_D8, "recorded execution: a vertex marked start and goal came back from store/load as "
+                                     "start only (last line of the trace): %s" % json.dumps(bad)[:300], rp)
+                ck.add("traces_validated_against_impl", execs - 1)
+            else:
+                ck.violation("trace:" + str(bad.get("e")), "recorded planner-data execution rejected by PlannerDataGraph at "
+                             "line %d of %d: %s" % (prefix + 1, len(evs), json.dumps(bad)[:400]), rp)
+        else:
+            ck.add("traces_validated_against_impl", execs)
+            if i == 0:
+                ck.sample({"kind": "recorded trace excerpt", "events": evs[1:3]})
+
+    # ---- vacuity gates
+    ck.set("counters", dict(sorted(counters.items())))
+    ck.set("removal_vacuity", ren.c)
+    ck.set("fault_scenarios_in_table", len(table_keys))
+    ck.set("fault_scenarios_replayed", len(set(hits) & table_keys))
+    ck.set("truncation_offsets_tried", counters.get("ss_truncations", 0) + counters.get("pd_truncations", 0))
+    if not ck.violations and not ck.known_hits:
+        need = ["shapes_replayed", "shapes_zero_length", "shapes_wrapped", "pairs_ret0", "pairs_ret1", "pairs_ret2",
+                "pairs_with_transfer", "ss_same_signature_accepted", "ss_other_signature_rejected",
+                "pd_same_signature_accepted", "pd_other_signature_rejected", "pd_other_control_signature_rejected",
+                "archives_with_start_and_goal_vertex", "act_RemoveVertex", "act_Clear", "act_Tag", "act_MarkGoal",
+                "foreign_archives_rejected"]
+        need += ["ss_trunc_%s_%s" % (f, p) for f in ("hdr", "marker", "counts", "sig", "item1") for p in ("start", "mid")]
+        need += ["%s_trunc_%s_%s" % (k, f, p) for k in ("PD", "PDC") for f in ("hdr", "marker", "counts", "sig", "item1", "item2")
+                 for p in ("start", "mid")]
+        zero = [k for k in need if not counters.get(k)]
+        zero += [k for k, v in ren.c.items() if not v]
+        zero += sorted(table_keys - set(hits))
+        if zero:
+            raise FrameworkError("vacuity gate: never exercised: %s" % zero)
+    return ck.finish()
+
+
+def replay(path):
+    """Re-execute a replay artefact: a recorded trace is re-validated; a failing scenario is shown and the
+    graph / layout it came from is replayed again."""
+    if path.endswith(".ndjson"):
+        acc, prefix, res = validate_trace("base/PlannerDataGraphTrace", path)
+        print("accepted" if acc else "REJECTED at line %d" % (prefix + 1))
+        return 0 if acc else 1
+    print(open(path).read()[:6000])
+    if not path.endswith(".json"):
+        return 1
+    art = json.load(open(path))
+    binary = build_harness("storage", needs_lib=True, san=None)
+    tier = "thorough" if "thorough" in str(art.get("graph")) else "quick"
+    files = {k: os.path.join(WORK, "c09-%s-%s.ndjson" % (k, tier)) for k in ("shapes", "pairs", "table")}
+    if not all(os.path.exists(p) for p in files.values()):
+        print("run ./check C09 first: the enumerations are regenerated by the check")
+        return 1
+    if art.get("graph") and os.path.exists(art["graph"]):
+        args = ["pdata", art["graph"], files["shapes"], files["table"], "0", "1", "edges", "0"] + PD_SHAPES
+    elif "archive" in json.dumps(art.get("first", {}).get("scenario", {})):
+        args = ["xkind", files["shapes"], files["table"], "RV2"]
+    else:
+        args = ["layout", files["shapes"], files["pairs"], files["table"], "0", "1", "0"]
+    rc, out, err = run_cmd([binary] + args, timeout=3000, env=ASAN_ENV)
+    fails = _parse(out, "FAIL")
+    for f in fails[:5]:
+        print("FAIL", json.dumps(f)[:1500])
+    print((_parse(out, "SUMMARY") or [out[-1500:] + err[-1500:]])[0] if not fails else "%d failure line(s)" % len(fails))
+    return 1 if fails or rc else 0
